@@ -22,7 +22,7 @@ func (S) Level() string { return "exploration" }
 
 func (S) Info() scen.Info {
 	return scen.Info{
-		Rule: "unit = one history = one fresh child process executing 8-50 seeded operations (Prototype+build at type and representation level+Unwrap, Wrap+read of both views, Marshal+Unmarshal with dag-cbor / dag-json) over a vocabulary of 14 Go types (scalars, all integer widths and unsigned, optional / nullable pointers, slices incl. nullable elements, ordered-map struct, keyed and kinded unions, enum, tuple / stringjoin / renamed struct representations, cid / link / node fields, nested structs, types sharing an inferred list name, a struct holding one struct type twice, two packages declaring the same type name), explicit and inferred schemas mixed. Each operation's outcome (panic? error? encoded bytes, abstract values of both views, round-trip equality) must equal the outcome of the same operation run first and alone in another fresh process. " +
+		Rule: "unit = one history = one fresh child process executing 8-50 seeded operations (Prototype+build at type and representation level+Unwrap, Wrap+read of both views, Marshal+Unmarshal with dag-cbor / dag-json) over a vocabulary of 16 Go types (incl. structs of five optional fields in all 32 presence patterns, map and listpairs representation) (scalars, all integer widths and unsigned, optional / nullable pointers, slices incl. nullable elements, ordered-map struct, keyed and kinded unions, enum, tuple / stringjoin / renamed struct representations, cid / link / node fields, nested structs, types sharing an inferred list name, a struct holding one struct type twice, two packages declaring the same type name), explicit and inferred schemas mixed. Each operation's outcome (panic? error? encoded bytes, abstract values of both views, round-trip equality) must equal the outcome of the same operation run first and alone in another fresh process. " +
 			"distinct_nontrivial counts distinct hash(operation sequence) over histories in which some operation repeats an earlier (type, schema mode) or follows an inferred binding of a type sharing a name or list shape.",
 		DistinctSet: "history",
 		Assumptions: []string{
@@ -135,7 +135,7 @@ func (S) RunTape(t *sim.Tape, st *sim.Stats, keepLog bool) *sim.Outcome {
 	var ops []Op
 	gen1 := func() Op {
 		ti := t.Choice(len(vocab), "op.type")
-		op := Op{Kind: t.Choice(3, "op.kind"), Type: ti, Val: t.Choice(2, "op.val"), Json: t.Bool("op.json")}
+		op := Op{Kind: t.Choice(3, "op.kind"), Type: ti, Val: t.Choice(32, "op.val"), Json: t.Bool("op.json")}
 		if vocab[ti].inferable {
 			op.Inferred = t.Bool("op.inferred")
 		}
@@ -205,7 +205,10 @@ func (S) RunTape(t *sim.Tape, st *sim.Stats, keepLog bool) *sim.Outcome {
 		} else if !strings.HasPrefix(ref, "PANIC") && !strings.HasPrefix(ref, "ERR") {
 			st.Inc("probe.fidelity_checked")
 		}
-		if strings.HasPrefix(ref, "PANIC") || strings.HasPrefix(ref, "ERR") {
+		if strings.HasPrefix(ref, "PANIC") || strings.Contains(ref, "ERR:") || strings.Contains(ref, "unreadable:") {
+			// every (type, schema mode) in the vocabulary is a supported shape with a valid value:
+			// a refusal, or a view that cannot be read consistently, is a fidelity failure
+			o.Fail("fidelity", name+" "+reasonClass(ref), "%s (fresh process): %s", op, trunc(ref))
 			st.Inc("ref_outcome_is_refusal")
 			if len(st.Notes) < 12 {
 				st.Notes["refusal: "+op.String()] = trunc(ref)
@@ -230,6 +233,54 @@ func (S) RunTape(t *sim.Tape, st *sim.Stats, keepLog bool) *sim.Outcome {
 		st.Sample(map[string]interface{}{"operations": len(ops), "history_prefix": hs})
 	}
 	return o
+}
+
+// reasonClass names why a supported shape was refused or unreadable (coarse, for signatures).
+func reasonClass(ref string) string {
+	switch {
+	case strings.Contains(ref, `"AssignInt" called on a Float node`):
+		return "dagjson-whole-float-does-not-unmarshal"
+	case strings.Contains(ref, "list iterator index"):
+		return "listpairs-iterator-index"
+	case strings.HasPrefix(ref, "PANIC"):
+		return "panic"
+	case strings.Contains(ref, "unreadable:"):
+		return "view-unreadable"
+	case strings.Contains(ref, "ERR:marshal"):
+		return "marshal-refused"
+	case strings.Contains(ref, "ERR:unmarshal"):
+		return "unmarshal-refused"
+	}
+	return "build-refused"
+}
+
+// Demos: fixed demonstrations of the recorded C19 findings.
+func (S) Demos() map[string]func() *sim.Violation {
+	find := func(name string) int {
+		for i, v := range vocab {
+			if v.name == name {
+				return i
+			}
+		}
+		panic("no type " + name)
+	}
+	return map[string]func() *sim.Violation{
+		"dagjson-whole-float": func() *sim.Violation {
+			// Simple value #1 is fine (1e300); Nested value #0 holds F=0, a whole number
+			op := Op{Kind: 2, Type: find("Nested"), Val: 0, Json: true}
+			if ref := reference(op); strings.Contains(ref, "ERR:") {
+				return &sim.Violation{Rule: "fidelity", Sig: "Nested " + reasonClass(ref), Msg: op.String() + ": " + ref}
+			}
+			return nil
+		},
+		"listpairs-iterator-index": func() *sim.Violation {
+			op := Op{Kind: 1, Type: find("ManyOptPairs"), Val: 18} // pattern: B and E present, A absent in front
+			if ref := reference(op); strings.Contains(ref, "unreadable:") {
+				return &sim.Violation{Rule: "fidelity", Sig: "ManyOptPairs " + reasonClass(ref), Msg: op.String() + ": " + ref}
+			}
+			return nil
+		},
+	}
 }
 
 func trunc(s string) string {
